@@ -96,7 +96,7 @@ def jobs_for(chk):
         for fast in (0, 1):
             for fresh in (0, 1, 2, 3):
                 for oncb in (0, 1):
-                    for scr in SMALL_SCRIPTS:
+                    for scr in (SMALL_SCRIPTS if (oncb == 0 or chk.thorough) else SMALL_SCRIPTS[:5]):
                         ex.append(("small", (fast, fresh, oncb, scr, lay), 1))
     for lay in L22:
         nth = len(lay)
